@@ -152,7 +152,17 @@ class Cx:
                         changed = 'no default any more'
                     else:
                         a_, b_ = c_.ev(cur_d, State()), c_.ev(_ast.parse(src, mode='eval').body, State())
-                        changed = None if (a_ == b_ or _ast.unparse(cur_d) == src) else f"{_ast.unparse(cur_d)} instead of {src}"
+
+                        def dotted(t):
+                            from .terms import Sym as _S, Attr as _A
+                            if isinstance(t, _S):
+                                return t.name
+                            if isinstance(t, _A):
+                                b0 = dotted(t.base)
+                                return None if b0 is None else b0 + '.' + t.name
+                            return None
+                        same = a_ == b_ or _ast.unparse(cur_d) == src or (dotted(a_) is not None and dotted(a_) in (dotted(b_), src))
+                        changed = None if same else f"{_ast.unparse(cur_d)} instead of {src}"
                     if changed:
                         self.violation('R-API', f.qualname, 'documented-defaults-kept',
                                        f"{f.qualname}: the default of `{pn}` is {changed}: a call that leaves `{pn}` out no longer does what "
